@@ -34,7 +34,7 @@ def lit(v):
     return repr(float(v))
 
 
-def driver(p, max_dt, t0, readings, out_time):
+def driver(p, max_dt, t0, readings, out_time, empty_vector=False):
     """readings: list of (timestamp, sensor key).  Managed run and by-hand run in one program."""
     L = [drivers.common_helpers(p, "gen", ekf=True)]
     L.append("using MF = formak::runtime::ManagedFilter<G::ExtendedKalmanFilter>;")
@@ -60,6 +60,10 @@ def driver(p, max_dt, t0, readings, out_time):
         L.append("  std::vector<MF::StampedReading> rds;")
         for i, (ts, key) in enumerate(readings):
             L.append(f"  rds.push_back(MF::wrap(S({lit(ts)}), rd{i}));")
+        L.append(f"  G::StateAndVariance m = mf.tick(S({lit(out_time)}){ctl}, rds);")
+    elif empty_vector:
+        # "ticking with readings" when there is nothing to report: the readings overload with an empty vector
+        L.append("  std::vector<MF::StampedReading> rds;")
         L.append(f"  G::StateAndVariance m = mf.tick(S({lit(out_time)}){ctl}, rds);")
     else:
         L.append(f"  G::StateAndVariance m = mf.tick(S({lit(out_time)}){ctl});")
@@ -87,7 +91,7 @@ def driver(p, max_dt, t0, readings, out_time):
 def schedules(p, max_dt):
     keys = p.s_sensors()
     md = max_dt
-    out = [("no-readings-forward", 0.0, [], 2.5 * md), ("no-readings-backward", 1.0, [], 1.0 - 1.25 * md), ("no-readings-same-time", 0.5, [], 0.5)]
+    out = [("no-readings-forward", 0.0, [], 2.5 * md), ("no-readings-backward", 1.0, [], 1.0 - 1.25 * md), ("no-readings-same-time", 0.5, [], 0.5), ("empty-readings-vector", 0.0, [], 1.5 * md)]
     if len(keys) >= 1:
         out.append(("one-reading", 0.0, [(1.5 * md, keys[0])], 2.25 * md))
         out.append(("reading-before-held-time", 1.0, [(1.0 - 0.5 * md, keys[0])], 1.0 + 0.75 * md))
@@ -107,7 +111,7 @@ def task(p, cse, k, max_dt, tier, seed):
     info = {"program": p.id, "cse": cse, "k": k, "max_dt": max_dt}
     tmo = tier_timeout_ms(tier)
     for name, t0, readings, out_time in schedules(p, max_dt):
-        body = driver(p, max_dt, t0, readings, out_time)
+        body = driver(p, max_dt, t0, readings, out_time, empty_vector=(name == "empty-readings-vector"))
         sinfo = dict(info, schedule=name, t0=t0, readings=readings, out=out_time)
         try:
             cf = CppFilter(p, ekf=True, cse=cse, k=k, max_dt=max_dt, extra_body=body, extra_includes=MF_INCLUDES)
@@ -248,7 +252,7 @@ def task_compile_only(p, cse, k, max_dt, tier, seed):
     info = {"program": p.id, "cse": cse, "k": k, "max_dt": max_dt}
     rng = random.Random(seed + 12)
     for name, t0, readings, out_time in schedules(p, max_dt)[:4]:
-        body = driver(p, max_dt, t0, readings, out_time)
+        body = driver(p, max_dt, t0, readings, out_time, empty_vector=(name == "empty-readings-vector"))
         sinfo = dict(info, schedule=name, t0=t0, readings=readings, out=out_time)
         try:
             cf = CppFilter(p, ekf=True, cse=cse, k=k, max_dt=max_dt, extra_body=body, extra_includes=MF_INCLUDES)
@@ -375,7 +379,7 @@ def replay(path):
         ps[p.id] = p
     p = ps[info["program"]]
     readings = [tuple(x) for x in info["readings"]]
-    body = driver(p, info["max_dt"], info["t0"], readings, info["out"])
+    body = driver(p, info["max_dt"], info["t0"], readings, info["out"], empty_vector=(info.get("schedule") == "empty-readings-vector"))
     with CppFilter(p, ekf=True, cse=info["cse"], k=info["k"], max_dt=info["max_dt"], extra_body=body, extra_includes=MF_INCLUDES) as cf:
         try:
             cf.compile_concrete()
